@@ -20,6 +20,9 @@ type Param struct {
 	Required bool    `json:"required,omitempty"`
 	Schema   *Schema `json:"schema,omitempty"`
 	Content  string  `json:"content,omitempty"` // e.g. application/json: use content instead of schema
+
+	Description string `json:"description,omitempty"`
+	Deprecated  bool   `json:"deprecated,omitempty"`
 }
 
 // Header is one response header.
@@ -50,6 +53,9 @@ type Operation struct {
 	Params    []Param    `json:"params,omitempty"`
 	Body      *Body      `json:"body,omitempty"`
 	Responses []Response `json:"responses"`
+
+	Description string `json:"description,omitempty"`
+	Deprecated  bool   `json:"deprecated,omitempty"`
 }
 
 // Doc is a whole document.
@@ -80,6 +86,12 @@ func (d Doc) RenderMap() map[string]any {
 	paths := map[string]any{}
 	for _, op := range d.Ops {
 		o := map[string]any{"operationId": op.ID}
+		if op.Description != "" {
+			o["description"] = op.Description
+		}
+		if op.Deprecated {
+			o["deprecated"] = true
+		}
 		if len(op.Params) > 0 {
 			var ps []any
 			for _, p := range op.Params {
@@ -92,6 +104,12 @@ func (d Doc) RenderMap() map[string]any {
 				}
 				if p.Explode != nil {
 					pm["explode"] = *p.Explode
+				}
+				if p.Description != "" {
+					pm["description"] = p.Description
+				}
+				if p.Deprecated {
+					pm["deprecated"] = true
 				}
 				if p.Content != "" {
 					pm["content"] = map[string]any{p.Content: map[string]any{"schema": p.Schema.Render()}}
